@@ -918,6 +918,8 @@ func checkSystemFilesFirstWins(c *Ctx, r *Report, rule string) {
 			}
 			if len(successSuccs(call)) == 0 {
 				r.Unk(rule, construct, c.Pos(call.Pos()), "the error of the resolve inside the loop is not tested")
+			} else if first := firstRangedConst(call.Call.Args[0]); first != "" && !strings.HasPrefix(first, "~") {
+				r.Bad(rule, construct, c.Pos(call.Pos()), fmt.Sprintf("the candidate list starts with %q, not with the user-level path: a system-wide file is preferred over the user's own", first))
 			} else if bad {
 				r.Bad(rule, construct, c.Pos(call.Pos()), "after a candidate resolved the loop goes on to the next one: the LAST resolvable candidate wins, so a system-wide file overrides the user's own ssh config / known-hosts file")
 			} else {
@@ -1281,4 +1283,38 @@ func callsThroughHelpers(root, target *ssa.Function, depth int) []boundCall {
 	}
 	visit(root, func(v ssa.Value) ssa.Value { return v }, depth)
 	return out
+}
+
+// firstRangedConst: v is the element of a literal list of string constants that a loop ranges over; returns element 0.
+func firstRangedConst(v ssa.Value) string {
+	u, ok := v.(*ssa.UnOp)
+	if !ok || u.Op != token.MUL {
+		return ""
+	}
+	ia, ok := u.X.(*ssa.IndexAddr)
+	if !ok || rangeHeader(ia.Index) == nil {
+		return ""
+	}
+	sl, ok := ia.X.(*ssa.Slice)
+	if !ok {
+		return ""
+	}
+	a, ok := sl.X.(*ssa.Alloc)
+	if !ok {
+		return ""
+	}
+	for _, ref := range *a.Referrers() {
+		if ea, ok := ref.(*ssa.IndexAddr); ok && ea != ia {
+			if k, ok := constInt(ea.Index); ok && k == 0 {
+				for _, r2 := range *ea.Referrers() {
+					if st, ok := r2.(*ssa.Store); ok {
+						if s, ok := constString(st.Val); ok {
+							return s
+						}
+					}
+				}
+			}
+		}
+	}
+	return ""
 }
